@@ -1084,6 +1084,27 @@ fn corpus() -> Vec<(&'static str, Value)> {
         ("corpus_shape", json!({"grid_search": {"a": [1], "b": [2], "c": [3]}})),
         ("corpus_shape", json!({"grid_search": {"a": [1, 3], "b": [2], "c": [5, 7, 9]}})),
         ("corpus_shape", json!({"q": true, "grid_search": {"a": [1], "b": [1, 2], "c": [1], "d": [1, 2, 3], "e": [1], "f": [1, 2]}})),
+        // very many axes: 40 single-option axes (one query), 10 two-option axes (1024 queries)
+        ("corpus_many_axes", Value::Object({
+            let mut q = Map::new();
+            q.insert("keep".to_string(), json!(1));
+            let mut sec = Map::new();
+            for i in 0..40 {
+                sec.insert(format!("axis{:02}", i), if i % 3 == 0 { json!([{format!("o{}", i): i}]) } else { json!([i]) });
+            }
+            q.insert(GRID.to_string(), Value::Object(sec));
+            q
+        })),
+        ("corpus_many_axes", Value::Object({
+            let mut q = Map::new();
+            let mut sec = Map::new();
+            for i in 0..10 {
+                sec.insert(format!("b{}", i), json!([0, 1]));
+            }
+            q.insert(GRID.to_string(), Value::Object(sec));
+            q.insert("after".to_string(), json!("x"));
+            q
+        })),
         // no grid section / not an object
         ("corpus_passthrough", json!({"origin_x": 1.5, "destination_x": 2, "nested": {"grid_search": {"a": [1]}}})),
         ("corpus_passthrough", json!({})),
